@@ -56,6 +56,9 @@ CLAIMED = {
  'C08': dict(level='model_checking', technique='bounded symbolic execution (z3) of duplicate placements against the reference, and bounded exploration of two-thread schedules (scheduling choices are solver-chosen holes)',
              text="Sequential placements of a duplicate build_file path / subbuild key (symbolic int/float arguments) run through the reference comparison with per-key execution counts and the rule that a caller which caught a rejection is re-executed in the next build; two threads issuing the same key are explored under every schedule up to the pre-emption bound: exactly one winner, one RuntimeError, one execution, the winner's output and record intact.",
              note='Trusted: scheduler, environment model, reference model, z3.'),
+ 'C17': dict(level='model_checking', technique="bounded exploration of thread schedules (scheduling choices are solver-chosen holes, pre-emption bounded) of a straggler thread racing with the owner's return, for every builder method and owner kind",
+             text="For owner in {root, subbuild, build_file} returning or raising and each of the 12 builder methods called by a straggler thread, every schedule up to the bound is explored: the call either completed and is part of the owner's record (read from the cache document) or raised RuntimeError and left no record, file or directory; calls after the close always raise RuntimeError.",
+             note='Trusted: scheduler (switches at environment calls and lock operations), environment model, z3. The unchanged tree has a known finding (see known_findings.json).'),
 }
 NA_REASON = 'check not built yet in this round (work in progress; see DESIGN.md section 12)'
 
